@@ -1,3 +1,250 @@
 import Driver.Common
-/-! Driver for property C12 (stub: the model for this property is not built yet). -/
-def main : IO Unit := Driver.run (fun (s : Unit) _ => (s, "unimplemented")) ()
+import TxdbusModel.Route.Spec
+import TxdbusModel.Route.Rule
+import TxdbusModel.Route.Router
+import TxdbusModel.Route.Text
+import TxdbusModel.Route.Client
+import TxdbusModel.Route.Proxy
+/-!
+Driver for property C12: line protocol over the match-rule models.
+
+Tokens
+  optional string   `~` = None, `-` = '', otherwise 6 hex digits per code point
+  pair list         `~` = None, `.` = [], otherwise `idx:str,idx:str`
+  rule              10 tokens: mtype sender interface member path path_namespace destination args arg_paths arg0namespace
+  attribute         `!` = attribute missing, `~` = None, otherwise a string
+  body              `~` = None, `.` = [], otherwise `,`-separated: `s<str>` (a str) or `o` (anything else)
+  message           7 tokens: mtype path interface member destination sender body
+  raises            `.` or `,`-separated callback numbers that raise when invoked
+
+Lines (one output line each)
+  match <rule> <msg>            -> skip | err | call | addfailed          (code model, current tables)
+  spec <rule> <msg>             -> 0 | 1                                  (Spec.specMatches)
+  mkrule <rule>                 -> simple=<k>:<v>;... attrs=<k>:<v>;...   (stored Rule)
+  reset                         -> ok                                     (fresh MessageRouter and client)
+  add <cb> <rule>               -> id <n> | addfailed
+  del <id>                      -> ok | keyerror
+  route <raises> <msg>          -> inv=<id>:<cb>,... log=<n>
+  cadd <cb> <rule>              -> sentadd <text>
+  cdel <id>                     -> sentremove <text> | keyerror
+  cok <k> / cerr <k>            -> adddone <id> | addfailed | deldone | delfailed | failed | ignored
+  csig <raises> <msg>           -> inv=... log=<n>
+  render <rule>                 -> <text>
+  parse <text>                  -> ok <rule> | valueerror | outofdomain
+  gate <declared> <received> <body>   -> none | call <body>
+-/
+open Txdbus.Route
+
+namespace C12
+
+def optStr? (t : String) : Option (Option Str) :=
+  if t == "~" then some none else (Driver.hexToChars? t).map some
+
+def showOptStr : Option Str → String
+  | none => "~"
+  | some s => Driver.charsToHex s
+
+def pair? (t : String) : Option (Nat × Str) :=
+  match t.splitOn ":" with
+  | [i, s] => do
+    let n ← i.toNat?
+    let cs ← Driver.hexToChars? s
+    pure (n, cs)
+  | _ => none
+
+def pairs? (t : String) : Option (Option (List (Nat × Str))) :=
+  if t == "~" then some none
+  else if t == "." then some (some [])
+  else ((t.splitOn ",").mapM pair?).map some
+
+def showPairs : Option (List (Nat × Str)) → String
+  | none => "~"
+  | some [] => "."
+  | some l => ",".intercalate (l.map fun iv => toString iv.1 ++ ":" ++ Driver.charsToHex iv.2)
+
+def rule? : List String → Option (RuleArgs × List String)
+  | t :: s :: i :: m :: p :: n :: d :: a :: q :: z :: rest => do
+    let mtype ← optStr? t
+    let sender ← optStr? s
+    let iface ← optStr? i
+    let member ← optStr? m
+    let path ← optStr? p
+    let pathNs ← optStr? n
+    let dest ← optStr? d
+    let args ← pairs? a
+    let argPaths ← pairs? q
+    let arg0ns ← optStr? z
+    pure ({ mtype, sender, iface, member, path, pathNs, dest, args, argPaths, arg0ns }, rest)
+  | _ => none
+
+def showRule (a : RuleArgs) : String :=
+  " ".intercalate [showOptStr a.mtype, showOptStr a.sender, showOptStr a.iface, showOptStr a.member,
+    showOptStr a.path, showOptStr a.pathNs, showOptStr a.dest, showPairs a.args, showPairs a.argPaths,
+    showOptStr a.arg0ns]
+
+def attr? (t : String) : Option Attr :=
+  if t == "!" then some .missing
+  else if t == "~" then some .none
+  else (Driver.hexToChars? t).map .some
+
+def arg? (t : String) : Option Arg :=
+  if t == "o" then some .other
+  else if t.startsWith "s" then (Driver.hexToChars? (t.drop 1).toString).map .str
+  else none
+
+def showArg : Arg → String
+  | .other => "o"
+  | .str s => "s" ++ Driver.charsToHex s
+
+def body? (t : String) : Option (Option (List Arg)) :=
+  if t == "~" then some none
+  else if t == "." then some (some [])
+  else ((t.splitOn ",").mapM arg?).map some
+
+def showBody (l : List Arg) : String :=
+  if l.isEmpty then "." else ",".intercalate (l.map showArg)
+
+def msg? : List String → Option (Msg × List String)
+  | t :: p :: i :: m :: d :: s :: b :: rest => do
+    let mtype ← t.toNat?
+    let path ← attr? p
+    let iface ← attr? i
+    let member ← attr? m
+    let dest ← attr? d
+    let sender ← attr? s
+    let body ← body? b
+    pure ({ mtype, path, iface, member, dest, sender, body }, rest)
+  | _ => none
+
+def raises? (t : String) : Option (Nat → Cb → Bool) :=
+  if t == "." then some (fun _ _ => false)
+  else do
+    let l ← (t.splitOn ",").mapM String.toNat?
+    pure (fun _ cb => l.contains cb)
+
+def showOutcome : Outcome → String
+  | .skip => "skip" | .err => "err" | .call => "call"
+
+def showRouted (r : Routed) : String :=
+  "inv=" ++ (if r.invoked.isEmpty then "." else
+    ",".intercalate (r.invoked.map fun ic => toString ic.1 ++ ":" ++ toString ic.2))
+  ++ " log=" ++ toString r.logged
+
+def showPyVal : PyVal → String
+  | .none => "~"
+  | .int n => "i" ++ toString n
+  | .str s => "s" ++ Driver.charsToHex s
+  | .pairs l => "p" ++ showPairs (some l)
+
+def showKVs (l : List (Str × PyVal)) : String :=
+  if l.isEmpty then "." else ";".intercalate (l.map fun kv => String.ofList kv.1 ++ ":" ++ showPyVal kv.2)
+
+structure St where
+  router : Router := {}
+  client : Client := {}
+
+def T : Tables := Tables.gen
+
+def step (st : St) (line : String) : St × String :=
+  match Driver.words line with
+  | "match" :: rest =>
+    match rule? rest with
+    | some (a, rest) =>
+      match msg? rest with
+      | some (m, []) =>
+        match mkRule T a with
+        | .ok r => (st, showOutcome (r.match m))
+        | .error _ => (st, "addfailed")
+      | _ => (st, "badinput")
+    | none => (st, "badinput")
+  | "spec" :: rest =>
+    match rule? rest with
+    | some (a, rest) =>
+      match msg? rest with
+      | some (m, []) => (st, if Spec.specMatches a m then "1" else "0")
+      | _ => (st, "badinput")
+    | none => (st, "badinput")
+  | "mkrule" :: rest =>
+    match rule? rest with
+    | some (a, []) =>
+      match mkRule T a with
+      | .ok r => (st, "simple=" ++ showKVs r.simple ++ " attrs=" ++ showKVs r.attrs.reverse)
+      | .error _ => (st, "addfailed")
+    | _ => (st, "badinput")
+  | ["reset"] => ({}, "ok")
+  | "add" :: cb :: rest =>
+    match cb.toNat?, rule? rest with
+    | some cb, some (a, []) =>
+      match st.router.step T (fun _ _ => false) (.add cb a) with
+      | (r, .added i) => ({ st with router := r }, "id " ++ toString i)
+      | (r, _) => ({ st with router := r }, "addfailed")
+    | _, _ => (st, "badinput")
+  | ["del", id] =>
+    match id.toNat? with
+    | some id =>
+      match st.router.step T (fun _ _ => false) (.del id) with
+      | (r, .deleted) => ({ st with router := r }, "ok")
+      | (r, _) => ({ st with router := r }, "keyerror")
+    | none => (st, "badinput")
+  | "route" :: rs :: rest =>
+    match raises? rs, msg? rest with
+    | some raises, some (m, []) => (st, showRouted (st.router.route raises m))
+    | _, _ => (st, "badinput")
+  | "cadd" :: cb :: rest =>
+    match cb.toNat?, rule? rest with
+    | some cb, some (a, []) =>
+      match st.client.step T (fun _ _ => false) (.addMatch cb a) with
+      | (c, .sentAdd text) => ({ st with client := c }, "sentadd " ++ Driver.charsToHex text)
+      | (c, _) => ({ st with client := c }, "unexpected")
+    | _, _ => (st, "badinput")
+  | ["cdel", id] =>
+    match id.toNat? with
+    | some id =>
+      match st.client.step T (fun _ _ => false) (.delMatch id) with
+      | (c, .sentRemove text) => ({ st with client := c }, "sentremove " ++ Driver.charsToHex text)
+      | (c, _) => ({ st with client := c }, "keyerror")
+    | none => (st, "badinput")
+  | [cmd, k] =>
+    if cmd == "cok" || cmd == "cerr" then
+      match k.toNat? with
+      | some k =>
+        let (c, o) := st.client.step T (fun _ _ => false) (if cmd == "cok" then .replyOk k else .replyErr k)
+        let s := match o with
+          | .addDone i => "adddone " ++ toString i
+          | .addFailed => "addfailed"
+          | .delDone => "deldone"
+          | .delFailed => "delfailed"
+          | .failed => "failed"
+          | .ignored => "ignored"
+          | _ => "unexpected"
+        ({ st with client := c }, s)
+      | none => (st, "badinput")
+    else if cmd == "parse" then
+      match Driver.hexToChars? k with
+      | some text =>
+        match parseRuleGen text with
+        | .ok a => (st, "ok " ++ showRule a)
+        | .error .valueError => (st, "valueerror")
+        | .error .outOfDomain => (st, "outofdomain")
+      | none => (st, "badinput")
+    else (st, "badinput")
+  | "csig" :: rs :: rest =>
+    match raises? rs, msg? rest with
+    | some raises, some (m, []) => (st, showRouted (st.client.router.route raises m))
+    | _, _ => (st, "badinput")
+  | "render" :: rest =>
+    match rule? rest with
+    | some (a, []) => (st, Driver.charsToHex (renderRule a))
+    | _ => (st, "badinput")
+  | ["gate", d, r, b] =>
+    match optStr? d, optStr? r, body? b with
+    | some d, some r, some b =>
+      match proxyGate d r b with
+      | none => (st, "none")
+      | some args => (st, "call " ++ showBody args)
+    | _, _, _ => (st, "badinput")
+  | _ => (st, "badinput")
+
+end C12
+
+def main : IO Unit := Driver.run C12.step ({} : C12.St)
